@@ -1,5 +1,6 @@
 import MlModel.Lemmas.Piter2Dead
 import MlModel.Lemmas.Piter2Shared
+import MlModel.Lemmas.PiterVariantDefs
 /-!
 # Two-queue LTS: FIFO conservation at each queue
 
@@ -644,6 +645,297 @@ theorem l2inv_reachable {c0 c : Cfg} (h : Reachable F c0 c) (hg0 : Good c0) (h0 
   | step hr hs ih =>
     obtain ⟨t, t', new, ht, hst⟩ := l2step_of_step (good_reachable hg0 hr) hs
     exact l2inv_of_step ht hst ih
+
+/-! ### the producer side of the first level -/
+
+def valsOf (l : List Item) : List Nat := l.filterMap fun i => match i with | .val v => some v | .fail => none
+
+/-- the input value a first-level task holds in hand on its way into `Q1.put` -/
+def inflight1 (t : Th) : List Nat := if putPc t.a.pc then [t.a.v.2] else []
+
+def em1 (t : Th) : List Nat := if t.role = .l1 then t.emitted else []
+
+def itemsOf (q : Queue.Thread) : List Item := match q.prog with | .producer src _ => src | _ => []
+
+/-- first level, producer side: (`bal`) what a task has put and holds in hand is — in order, without repetition —
+part of what it pulled from its input; (`src`) what it pulled ++ what is left of its input = its input; (`prod`) the
+input queue's `produced` is exactly what the tasks have put -/
+structure L1Inv (c : Cfg) : Prop where
+  bal : ∀ t ∈ c.ths, t.role = .l1 → (t.emitted ++ inflight1 t).Sublist t.pulled
+  src : ∀ t ∈ c.ths, t.role = .l1 →
+    if t.a.pc = .start then t.pulled = [] else t.pulled ++ valsOf t.a.src = valsOf (itemsOf t.a)
+  prod : List.Perm (c.s1.produced.map (·.2)) (c.ths.map em1).flatten
+
+structure L1Step (c c' : Cfg) (tid : Tid) (t t' : Th) (new : List Nat) : Prop where
+  ths : c'.ths = c.ths.set tid t'
+  role : t'.role = t.role
+  prod : c'.s1.produced.map (·.2) = c.s1.produced.map (·.2) ++ new
+  em : t.role = .l1 → t'.emitted = t.emitted ++ new
+  nl1 : t.role ≠ .l1 → new = []
+  bal : t.role = .l1 → (t.emitted ++ inflight1 t).Sublist t.pulled → (t'.emitted ++ inflight1 t').Sublist t'.pulled
+  src : t.role = .l1 →
+    (if t.a.pc = .start then t.pulled = [] else t.pulled ++ valsOf t.a.src = valsOf (itemsOf t.a)) →
+    (if t'.a.pc = .start then t'.pulled = [] else t'.pulled ++ valsOf t'.a.src = valsOf (itemsOf t'.a))
+
+theorem l1inv_of_step {c c' : Cfg} {tid : Tid} {t t' : Th} {new : List Nat} (ht : c.ths[tid]? = some t)
+    (hs : L1Step c c' tid t t' new) (hv : L1Inv c) : L1Inv c' := by
+  refine ⟨?_, ?_, ?_⟩
+  · intro u hu hr
+    rw [hs.ths] at hu
+    rcases List.mem_or_eq_of_mem_set hu with hu | rfl
+    · exact hv.bal u hu hr
+    · have hr' : t.role = .l1 := by rw [← hs.role]; exact hr
+      exact hs.bal hr' (hv.bal t (List.mem_of_getElem? ht) hr')
+  · intro u hu hr
+    rw [hs.ths] at hu
+    rcases List.mem_or_eq_of_mem_set hu with hu | rfl
+    · exact hv.src u hu hr
+    · have hr' : t.role = .l1 := by rw [← hs.role]; exact hr
+      exact hs.src hr' (hv.src t (List.mem_of_getElem? ht) hr')
+  · rw [hs.prod, hs.ths, List.map_set]
+    have hget : (c.ths.map em1)[tid]? = some (em1 t) := by simp [ht]
+    by_cases hr : t.role = .l1
+    · have : em1 t' = em1 t ++ new := by simp [em1, hr, hs.role, hs.em hr]
+      rw [this]
+      exact (hv.prod.append_right new).trans (flatten_set_append hget).symm
+    · have hn := hs.nl1 hr
+      have : em1 t' = em1 t := by simp [em1, hr, hs.role]
+      rw [this, set_self_of_get hget, hn, List.append_nil]
+      exact hv.prod
+
+/-- how a caller's step touches the input queue -/
+theorem cons_s1 {c c' : Cfg} {tid : Tid} {t : Th} {alt : Bool} {lbl : String}
+    (h : stepCons c tid t alt = some (lbl, c')) :
+    c'.s1 = c.s1 ∨ (t.cpc = .upstop ∧ ∃ l a', stepThread c.s1 t.a tid alt = some (l, c'.s1, a')) := by
+  unfold stepCons at h
+  split at h
+  · simp at h
+  · (repeat' split at h) <;> simp only [Option.some.injEq, Prod.mk.injEq, reduceCtorEq] at h <;>
+      obtain ⟨-, rfl⟩ := h <;> exact .inl rfl
+  · (repeat' split at h) <;> simp only [Option.some.injEq, Prod.mk.injEq, reduceCtorEq] at h <;>
+      obtain ⟨-, rfl⟩ := h <;> exact .inl rfl
+  · (repeat' split at h) <;> simp only [Option.some.injEq, Prod.mk.injEq, reduceCtorEq] at h <;>
+      obtain ⟨-, rfl⟩ := h <;> exact .inl rfl
+  · (repeat' split at h) <;> simp only [Option.some.injEq, Prod.mk.injEq, reduceCtorEq] at h <;>
+      obtain ⟨-, rfl⟩ := h <;> exact .inl rfl
+  · rename_i hc
+    split at h
+    · simp at h
+    · rename_i l s1' a' hst
+      simp only [Option.some.injEq, Prod.mk.injEq] at h
+      obtain ⟨-, rfl⟩ := h
+      exact .inr ⟨hc, l, a', hst⟩
+  · (repeat' split at h) <;> simp only [Option.some.injEq, Prod.mk.injEq, reduceCtorEq] at h <;>
+      obtain ⟨-, rfl⟩ := h <;> exact .inl rfl
+
+/-- how a second-level task's step touches the input queue -/
+theorem l2_s1 {c c' : Cfg} {tid : Tid} {t : Th} {alt : Bool} {lbl : String}
+    (h : stepL2 F c tid t alt = some (lbl, c')) :
+    c'.s1 = c.s1 ∨ ((t.x = .deq ∨ t.x = .up) ∧ ∃ l a', stepThread c.s1 t.a tid alt = some (l, c'.s1, a')) := by
+  unfold stepL2 at h
+  split at h
+  · (repeat' split at h) <;> simp only [Option.some.injEq, Prod.mk.injEq, reduceCtorEq] at h <;>
+      obtain ⟨-, rfl⟩ := h <;> exact .inl rfl
+  · split at h
+    · (repeat' split at h) <;> simp only [Option.some.injEq, Prod.mk.injEq, reduceCtorEq] at h <;>
+        obtain ⟨-, rfl⟩ := h <;> exact .inl rfl
+    · rename_i hx
+      split at h
+      · simp at h
+      · rename_i l s1' a' hst
+        split at h <;> simp only [Option.some.injEq, Prod.mk.injEq] at h <;> obtain ⟨-, rfl⟩ := h <;>
+          exact .inr ⟨.inl hx, l, a', hst⟩
+    · (repeat' split at h) <;> simp only [Option.some.injEq, Prod.mk.injEq, reduceCtorEq] at h <;>
+        obtain ⟨-, rfl⟩ := h <;> exact .inl rfl
+    · simp at h
+  · split at h
+    · rename_i hx
+      split at h
+      · simp at h
+      · rename_i l s1' a' hst
+        simp only [Option.some.injEq, Prod.mk.injEq] at h
+        obtain ⟨-, rfl⟩ := h
+        exact .inr ⟨.inr hx, l, a', hst⟩
+    · simp at h
+  · (repeat' split at h) <;> simp only [Option.some.injEq, Prod.mk.injEq, reduceCtorEq] at h <;>
+      obtain ⟨-, rfl⟩ := h <;> exact .inl rfl
+
+theorem valsOf_cons_val (v : Nat) (l : List Item) : valsOf (.val v :: l) = v :: valsOf l := by simp [valsOf]
+theorem valsOf_cons_fail (l : List Item) : valsOf (.fail :: l) = valsOf l := by simp [valsOf]
+
+set_option maxHeartbeats 400000 in
+/-- every step of the two-queue LTS, as seen by the first-level producer-side invariant -/
+theorem l1step_of_step {c c' : Cfg} {tid : Tid} {alt : Bool} {lbl : String} (hg : Good c)
+    (h : step F c tid alt = some (lbl, c')) :
+    ∃ t t' new, c.ths[tid]? = some t ∧ L1Step c c' tid t t' new := by
+  have hi := hg.inv
+  obtain ⟨t, t', ht, hths, hrole⟩ := step_set h
+  have hti := hi.ti t (List.mem_of_getElem? ht)
+  have hq1 := q1_get ht
+  -- a step of a part that is not a producer leaves `produced` alone
+  have hnoprod : ∀ (l : String) (a' : Queue.Thread), t.role ≠ .l1 → v1 t = t.a →
+      stepThread c.s1 t.a tid alt = some (l, c'.s1, a') → c'.s1.produced = c.s1.produced := by
+    intro l a' hr hv hst
+    rw [hv] at hq1
+    have htok : TOK t.a := hg.live1.base.tok t.a (List.mem_of_getElem? hq1)
+    have hk : t.a.prog.kind ≠ .producer := by
+      intro e
+      have : isProd (v1 t) = true := by rw [hv]; simp [isProd, e]
+      exact hr (isProd_v1 hti this)
+    rw [(stepThread_put l c'.s1 a' hst).1]
+    simp [not_put_of_kind htok hk]
+  unfold step at h
+  simp only [ht] at h
+  cases hr : t.role with
+  | cons =>
+    simp only [hr] at h
+    have hne1 : t.role ≠ .l1 := by rw [hr]; simp
+    refine ⟨t, t', [], ht, hths, hrole, ?_, fun e => absurd e hne1, fun _ => rfl,
+      fun e => absurd e hne1, fun e => absurd e hne1⟩
+    rw [List.append_nil]
+    rcases cons_s1 h with g | ⟨hc, l, a', hst⟩
+    · rw [g]
+    · rw [hnoprod l a' (by rw [hr]; simp) (by simp [v1, hr, hc]) hst]
+  | l2 =>
+    simp only [hr] at h
+    have hne1 : t.role ≠ .l1 := by rw [hr]; simp
+    refine ⟨t, t', [], ht, hths, hrole, ?_, fun e => absurd e hne1, fun _ => rfl,
+      fun e => absurd e hne1, fun e => absurd e hne1⟩
+    rw [List.append_nil]
+    rcases l2_s1 h with g | ⟨hx, l, a', hst⟩
+    · rw [g]
+    · rw [hnoprod l a' (by rw [hr]; simp) (v1_l2_on hr hx) hst]
+  | l1 =>
+    simp only [hr] at h
+    rw [v1_l1 hr] at hq1
+    have htok : TOK t.a := hg.live1.base.tok t.a (List.mem_of_getElem? hq1)
+    have hkp : t.a.prog.kind = .producer := by unfold TI at hti; simp only [hr] at hti; exact hti
+    unfold stepL1 at h
+    split at h
+    · -- start
+      rename_i hpc
+      (repeat' split at h) <;> simp only [Option.some.injEq, Prod.mk.injEq, reduceCtorEq] at h
+      rename_i l s1' a' hst
+      obtain ⟨-, rfl⟩ := h
+      cases hprog : t.a.prog with
+      | producer items ret =>
+        have hst' : stepThread c.s1 t.a tid alt = some ("start", c.s1, { t.a with pc := .sAcq, src := items }) := by
+          rename_i halt _ _
+          have : alt = false := by simpa using halt
+          subst this
+          simp [stepThread, hpc, hprog]
+        rw [hst'] at hst
+        simp only [Option.some.injEq, Prod.mk.injEq] at hst
+        obtain ⟨-, rfl, rfl⟩ := hst
+        refine ⟨t, { t with a := { t.a with pc := .sAcq, src := items } }, [], ht, rfl, rfl, by simp,
+          fun _ => by simp, fun e => absurd hr e, fun _ hb => ?_, fun _ hsrc => ?_⟩
+        · simpa [inflight1, putPc, hpc] using hb
+        · simp only [hpc, if_true] at hsrc
+          simp [hsrc, itemsOf, hprog]
+      | getLoop => rw [hprog] at hkp; cases hkp
+      | batchLoop _ _ => rw [hprog] at hkp; cases hkp
+      | stopper _ => rw [hprog] at hkp; cases hkp
+    · -- eNext
+      rename_i hpc
+      split at h
+      · simp at h
+      rename_i halt
+      have halt' : alt = false := by simpa using halt
+      subst halt'
+      split at h
+      · -- the input ends
+        simp only [Option.some.injEq, Prod.mk.injEq] at h
+        obtain ⟨-, rfl⟩ := h
+        refine ⟨t, _, [], ht, rfl, rfl, by simp [Cfg.setTh], fun _ => by simp, fun e => absurd hr e,
+          fun _ hb => ?_, fun _ hsrc => ?_⟩
+        · simpa [inflight1, putPc, hpc] using hb
+        · simpa [hpc, itemsOf] using hsrc
+      · rename_i i rest hsrc0
+        split at h
+        · simp at h
+        rename_i l s1' a' hst
+        simp only [Option.some.injEq, Prod.mk.injEq] at h
+        obtain ⟨-, rfl⟩ := h
+        have hp := (stepThread_put l s1' a' hst).1
+        have hprod : s1'.produced = c.s1.produced := by rw [hp]; simp [hpc]
+        cases i with
+        | val v =>
+          have hst' : stepThread c.s1 t.a tid false =
+              some ("next", c.s1, { t.a with pc := .pAcq, v := (tid, v), src := rest }) := by
+            simp [stepThread, hpc, hsrc0]
+          rw [hst'] at hst
+          simp only [Option.some.injEq, Prod.mk.injEq] at hst
+          obtain ⟨-, rfl, rfl⟩ := hst
+          refine ⟨t, _, [], ht, rfl, rfl, by simp, fun _ => by simp, fun e => absurd hr e,
+            fun _ hb => ?_, fun _ hsrc => ?_⟩
+          · have hin : inflight1 t = [] := by simp [inflight1, putPc, hpc]
+            rw [hin, List.append_nil] at hb
+            simp only [inflight1, putPc, if_true]
+            exact List.Sublist.append hb (List.Sublist.refl _)
+          · simp only [hpc, reduceCtorEq, if_false, hsrc0, valsOf_cons_val] at hsrc
+            simp [itemsOf]
+            exact hsrc
+        | fail =>
+          have hst' : stepThread c.s1 t.a tid false =
+              some ("next", { c.s1 with exc := some .value },
+                { t.a with pc := .tAcq, src := rest, rets := [], reraise := some .value }) := by
+            simp [stepThread, hpc, hsrc0, hi.ig1]
+          rw [hst'] at hst
+          simp only [Option.some.injEq, Prod.mk.injEq] at hst
+          obtain ⟨-, rfl, rfl⟩ := hst
+          refine ⟨t, _, [], ht, rfl, rfl, by simp, fun _ => by simp, fun e => absurd hr e,
+            fun _ hb => ?_, fun _ hsrc => ?_⟩
+          · simpa [inflight1, putPc, hpc] using hb
+          · simp only [hpc, reduceCtorEq, if_false, hsrc0, valsOf_cons_fail] at hsrc
+            simp [itemsOf]
+            exact hsrc
+    · -- a step on the input queue
+      rename_i h1 h2
+      split at h
+      · simp at h
+      rename_i l s1' a' hst
+      simp only [Option.some.injEq, Prod.mk.injEq] at h
+      obtain ⟨-, rfl⟩ := h
+      have hdone : t.a.pc ≠ .done := by intro e; simp [stepThread, e] at hst
+      obtain ⟨hp, hrest⟩ := stepThread_put l s1' a' hst
+      obtain ⟨hv, hput, hps⟩ := hrest (fun e => h2 e) (prodPc_of_tok htok hkp (fun e => h1 e) hdone)
+      obtain ⟨-, hprog', -⟩ := stepThread_data l s1' a' hst htok
+      have hsrc' := Piter.stepThread_src l s1' a' hst (fun e => h1 e) (fun e => h2 e)
+      have hp1 := (stepThread_pc l s1' a' hst).1
+      by_cases hA : t.a.pc = .pPut ∧ a'.pc = .pStAcq
+      · refine ⟨t, _, [t.a.v.2], ht, rfl, rfl, by rw [hp]; simp [hA], fun _ => by simp [hA],
+          fun e => absurd hr e, fun _ hb => ?_, fun _ hsrc => ?_⟩
+        · have hin : inflight1 t = [t.a.v.2] := by simp [inflight1, putPc, hA.1]
+          rw [hin] at hb
+          simpa [inflight1, putPc, hA] using hb
+        · have : t.a.pc ≠ .start := fun e => h1 e
+          simp only [this, if_false] at hsrc
+          simp only [hp1, if_false, hsrc', itemsOf, hprog']
+          simpa [itemsOf] using hsrc
+      · have hfl : (t.a.pc == Pc.pPut && a'.pc == Pc.pStAcq) = false := by
+          cases h1' : (t.a.pc == Pc.pPut && a'.pc == Pc.pStAcq) with
+          | false => rfl
+          | true => simp only [Bool.and_eq_true, beq_iff_eq] at h1'; exact absurd h1' hA
+        refine ⟨t, _, [], ht, rfl, rfl, by rw [hp]; simp [hA], fun _ => by simp [hfl],
+          fun e => absurd hr e, fun _ hb => ?_, fun _ hsrc => ?_⟩
+        · refine List.Sublist.trans ?_ hb
+          simp only [hfl, Bool.false_eq_true, if_false]
+          refine List.Sublist.append (List.Sublist.refl _) ?_
+          simp only [inflight1]
+          by_cases hpp : putPc a'.pc = true
+          · simp [hpp, hput hpp, hv]
+          · simp [hpp]
+        · have : t.a.pc ≠ .start := fun e => h1 e
+          simp only [this, if_false] at hsrc
+          simp only [hp1, if_false, hsrc', itemsOf, hprog']
+          simpa [itemsOf] using hsrc
+
+theorem l1inv_reachable {c0 c : Cfg} (h : Reachable F c0 c) (hg0 : Good c0) (h0 : L1Inv c0) : L1Inv c := by
+  induction h with
+  | init => exact h0
+  | step hr hs ih =>
+    obtain ⟨t, t', new, ht, hst⟩ := l1step_of_step (good_reachable hg0 hr) hs
+    exact l1inv_of_step ht hst ih
 
 theorem out_reachable {c0 c : Cfg} (h : Reachable F c0 c) (hg0 : Good c0) (h0 : OutInv c0) : OutInv c := by
   induction h with
